@@ -110,6 +110,9 @@ def write_replay(pid, viol):
 
 
 def do_replay(pid, path):
+    import logging, warnings
+    logging.disable(logging.CRITICAL)
+    warnings.simplefilter('ignore')
     chk = load_check(pid)
     data = json.load(open(path))
     rec = Recorder('replay')
